@@ -32,7 +32,7 @@ func init() {
 		Level: "exploration",
 		Rule: "E1 bounded-exhaustive enumeration of the kind grammar T ::= scalar | string | [k]T | []T | map[K]T | *T | interface{} | struct{T,…} built with reflect to depth 3 (thorough 4) (every depth-1 type, then W types spread over each level as elements of the next): all 17 scalar kinds (bool, int8..64, int, uint8..64, uint, uintptr, float32/64, complex64/128) at every leaf position of depth-1 composites, a 7-type leaf subset plus 9 types of the previous level for binary structs; arrays of 0 and 2 elements; struct arity 1 and 2; map keys string/int32/uint; " +
 			"values per type from a shape alphabet (slices nil/empty/1/2 elements, maps nil/empty/1/2 entries, pointers nil/non-nil, interfaces nil/scalar/string/pointer/struct, strings \"\",\"a\",\"abc\" and 40 bytes; over leaf types also slices of 9, 70 and 1025 elements and maps of 9, 40 and 1000 entries; pointer values are deliberately REUSED in both elements of arrays and both fields of structs, so shared acyclic pointers occur). Oracle: the generator returns (value, size) and computes the size while building (headers 16/24/8/8/16, 8 for int/uint/uintptr; 64-bit platform asserted). size.Of on every value; Stat(v,d,m) for d in {0,1,3}, m in {0,1,10} and the AvgOf form: the number on the first line equals the expected size. " +
-			"Plus element structs {A [L]T; B S} (L 0..3, T not scalar, S of 1 / 8 / 16 bytes) inside slices, arrays, maps and behind a pointer. Plus WIDE structs (7..257 fields, the last six a string, a []byte, a pointer, an interface, a map and an array; alone, in slices of 1..3, a [2] array and a map). Plus 34 hand-written values (16 of them deep: linked lists of 999..50001 nodes and interface/pointer chains of 1000..10000 boxes) (among them maps whose struct / array / interface keys differ in structural size) of Go types reflect cannot build (unexported and embedded fields, named types, padding, interior pointers of another type into the object being walked - to its first field or element and further in), and a SEQUENCE of 13 values of distinct types that print alike (seven local types all called props.rec, two package-level types both called model.Rec; in pairs also equal in Size and Kind), measured in order by one goroutine, forward then backward: nothing may be carried from one type to a like-named one; and a SEQUENCE on shared objects in which out-of-domain calls (a chan, a func, an unsafe.Pointer behind pointers: Of and Stat panic, the caller recovers) come between measurements of in-domain values that reach the same pointers: a recovered panic must leave nothing behind. Plus structs of 7..257 fields, element structs with array fields of non-scalar elements, and LONG arrays and slices: 21 lengths 0..4096 (around 8, 16, 32, 64, 128, 256) of uint8 / int8 / bool / uint16 / int64 / string elements by value, behind a pointer, as slice elements, as a struct field by value and behind a pointer, as a map value and as the dynamic value of an interface. A case is one (value, function) pair; non-trivial when the type is composite.",
+			"Plus element structs {A [L]T; B S} (L 0..3, T not scalar, S of 1 / 8 / 16 bytes) inside slices, arrays, maps and behind a pointer. Plus WIDE structs (7..257 fields, the last six a string, a []byte, a pointer, an interface, a map and an array; alone, in slices of 1..3, a [2] array and a map). Plus 34 hand-written values (16 of them deep: linked lists of 999..50001 nodes and interface/pointer chains of 1000..10000 boxes) (among them maps whose struct / array / interface keys differ in structural size) of Go types reflect cannot build (unexported and embedded fields, named types, padding, interior pointers of another type into the object being walked - to its first field or element and further in), and a SEQUENCE of 13 values of distinct types that print alike (seven local types all called props.rec, two package-level types both called model.Rec; in pairs also equal in Size and Kind), measured in order by one goroutine, forward then backward: nothing may be carried from one type to a like-named one; and a SEQUENCE on shared objects in which out-of-domain calls (a chan, a func, an unsafe.Pointer behind pointers: Of and Stat panic, the caller recovers) come between measurements of in-domain values that reach the same pointers: a recovered panic must leave nothing behind. Plus structs of 7..257 fields, element structs with array fields of non-scalar elements, and LONG arrays and slices: 21 lengths 0..4096 (around 8, 16, 32, 64, 128, 256) of uint8 / int8 / bool / uint16 / int64 / string elements by value, behind a pointer, as slice elements, as a struct field by value and behind a pointer, as a map value and as the dynamic value of an interface. Plus 13 ACYCLIC values that reach the same memory more than once (the same pointer / map / slice among siblings; prefix, middle and suffix sub-slices of a sibling and of an ANCESTOR slice with the same data pointer; an arena-allocated tree; shared string bytes): every path counts. A case is one (value, function) pair; non-trivial when the type is composite.",
 		Assumptions: []string{
 			"64-bit platform (asserted at start)",
 			"types deeper than D, struct arity > 2 and cyclic values are not generated (cycles are excluded by the statement)",
@@ -435,6 +435,61 @@ func c20LongSeqs() c20Type {
 			t.vals = append(t.vals, c20Val{iv, 16 + body, "struct{X interface{}} holding " + d})
 		}
 	}
+	return t
+}
+
+// c20Node is a tree node whose children live in a shared arena (see c20Shared).
+type c20Node struct {
+	v    int64
+	kids []c20Node
+}
+
+// c20Shared: ACYCLIC values in which the same memory is reached more than once - a pointer, a map or a
+// slice twice among siblings, sub-slices (prefix, suffix, middle) of a sibling or of an ANCESTOR slice with
+// the same data pointer, an arena-allocated tree: the structural sum counts every path; nothing reached
+// twice may be mistaken for a cycle or counted once.
+func c20Shared() c20Type {
+	t := c20Type{t: reflect.TypeOf(struct{ Shared int8 }{}), composite: true}
+	add := func(x interface{}, sz int, d string) {
+		t.vals = append(t.vals, c20Val{reflect.ValueOf(x), sz, d})
+	}
+	i64 := int64(5)
+	add(struct{ P, Q *int64 }{&i64, &i64}, 2*(8+8), "the same pointer in two fields")
+	add([]*int64{&i64, &i64, &i64}, 24+3*16, "the same pointer three times in a slice")
+	m := map[string]int8{"k": 1}
+	add([]map[string]int8{m, m}, 24+2*(8+16+1+1), "the same map twice in a slice")
+	x := []int64{1, 2, 3, 4}
+	add(struct{ A, B []int64 }{x, x[:2]}, 24+32+24+16, "a slice and its prefix as siblings")
+	add(struct{ A, B []int64 }{x, x[2:]}, 24+32+24+16, "a slice and its suffix as siblings")
+	add([][]int64{x, x[:1], x[1:3], x[3:], x}, 24+(24+32)+(24+8)+(24+16)+(24+8)+(24+32), "a slice, its prefix, middle, suffix and itself again")
+	// a = [7, [7]]: element 1 holds the prefix a[:1] of its own ancestor - acyclic
+	a := []interface{}{int64(7), nil}
+	a[1] = a[:1]
+	add(a, 24+(16+8)+(16+24+(16+8)), "[]interface{} whose element 1 is the prefix [:1] of itself")
+	// b = [[..b[:1]..]]-like with three levels: b[2] = b[:2], b[1] = b[:1]
+	b := []interface{}{int64(1), nil, nil}
+	b[1] = b[:1]
+	b[2] = b[:2]
+	e0 := 16 + 8
+	e1 := 16 + 24 + e0
+	e2 := 16 + 24 + e0 + e1
+	add(b, 24+e0+e1+e2, "[]interface{} with b[1] = b[:1], b[2] = b[:2]")
+	// arena-allocated tree: root.kids = arena[:3], arena[2].kids = arena[:2], arena[1].kids = arena[:1]
+	arena := make([]c20Node, 4)
+	for i := range arena {
+		arena[i].v = int64(i)
+	}
+	arena[1].kids = arena[:1]
+	arena[2].kids = arena[:2]
+	n0 := 8 + 24
+	n1 := 8 + 24 + n0
+	n2 := 8 + 24 + n0 + n1
+	root := c20Node{v: 9, kids: arena[:3]}
+	add(root, 8+24+n0+n1+n2, "arena tree: kids are prefixes of the arena the node itself lives in")
+	add(&root, 8+8+24+n0+n1+n2, "pointer to the arena tree")
+	// the same string (same bytes) in many places
+	str := "shared-bytes"
+	add([]string{str, str[:6], str[6:], str}, 24+(16+12)+(16+6)+(16+6)+(16+12), "a string, its prefix, suffix and itself again")
 	return t
 }
 
@@ -920,7 +975,7 @@ func c20Run(c *mc.Ctx) {
 	c.Set("type_depth", D)
 	c.Set("types", len(types))
 	c.Set("types_per_depth", per)
-	types = append(types, c20Handwritten(), c20SameNamed(), c20IfaceSlots(), c20AfterPanic(), c20Wide(), c20ArrayFields(), c20LongSeqs())
+	types = append(types, c20Handwritten(), c20SameNamed(), c20IfaceSlots(), c20AfterPanic(), c20Wide(), c20ArrayFields(), c20LongSeqs(), c20Shared())
 	nvals := 0
 	for _, t := range types {
 		nvals += len(t.vals)
@@ -988,7 +1043,7 @@ func c20Judge(kind string, cs c20Case) (got, want string) {
 		return fmt.Sprintf("Of=%s%d", p, g), "Of=0"
 	}
 	types, _ := c20Types(cs.Depth, cs.Width)
-	types = append(types, c20Handwritten(), c20SameNamed(), c20IfaceSlots(), c20AfterPanic(), c20Wide(), c20ArrayFields(), c20LongSeqs())
+	types = append(types, c20Handwritten(), c20SameNamed(), c20IfaceSlots(), c20AfterPanic(), c20Wide(), c20ArrayFields(), c20LongSeqs(), c20Shared())
 	if cs.Path[0] >= len(types) || cs.Path[1] >= len(types[cs.Path[0]].vals) {
 		return "case does not exist in this enumeration", ""
 	}
